@@ -32,11 +32,12 @@ func c15LeaveJoin(c *rig.Ctx) {
 	ent.GetOrAddFeature(model.FeatureTypeTypeMeasurement, model.RoleTypeClient)
 	feats := []rig.FS{rig.NMFS, {Ent: []uint{1}, Id: 1, Typ: model.FeatureTypeTypeMeasurement, Role: model.RoleTypeServer}}
 
-	gated := c.Index%4 != 3         // three of four cases force the window
-	sameSki := r.Intn(3) == 0       // B is the same device reconnecting
-	aAnnounced := r.Intn(4) != 0    // A completed its discovery before leaving
+	gated := c.Index%4 != 3                    // three of four cases force a window
+	joinParked := c.Index%4 == 1               // ... one of them the symmetric one: the SETUP is parked between registration and core subscription while the removal runs to completion
+	sameSki := r.Intn(3) == 0 && !joinParked   // B is the same device reconnecting
+	aAnnounced := r.Intn(4) != 0               // A completed its discovery before leaving
 	bystanders := []int{0, 0, 0, 1}[r.Intn(4)] // with another connection present nothing is unsubscribed: control cases
-	c.Shape(fmt.Sprintf("leave-join gated=%v same-ski=%v a-announced=%v bystanders=%d", gated, sameSki, aAnnounced, bystanders))
+	c.Shape(fmt.Sprintf("leave-join gated=%v join-parked=%v same-ski=%v a-announced=%v bystanders=%d", gated, joinParked, sameSki, aAnnounced, bystanders))
 
 	a := w.AddPeer(0)
 	if aAnnounced {
@@ -52,71 +53,124 @@ func c15LeaveJoin(c *rig.Ctx) {
 	defer h.Uninstall()
 	h.SetMaxWait(20 * time.Second)
 	var release func()
+	gatePoint := "RemoveRemoteDevice.afterDelete"
+	if joinParked {
+		gatePoint = "SetupRemoteDevice.afterAdd"
+	}
 	if gated {
-		release = h.Gate("RemoveRemoteDevice.afterDelete")
+		release = h.Gate(gatePoint)
 	} else {
 		h.Jitter("RemoveRemoteDevice.afterDelete", r.Int63(), 200*time.Microsecond)
 		h.Jitter("RemoveRemoteDevice.beforeCleanup", r.Int63(), 200*time.Microsecond)
+		h.Jitter("SetupRemoteDevice.afterAdd", r.Int63(), 200*time.Microsecond)
 	}
 
 	var leaveRet atomic.Int64
-	leaveDone := make(chan string, 1)
-	go func() {
-		h.Role("leave")
-		leaveDone <- eGuard(c, "RemoveRemoteDeviceConnection", func() { w.Local.RemoveRemoteDeviceConnection(a.Ski) })
-		leaveRet.Store(rig.Seq())
-	}()
+	var setupCall, setupRet int64
 	forced := false
-	if gated {
-		forced = rig.WaitFor(10*time.Second, func() bool { return h.GateWaiting("RemoveRemoteDevice.afterDelete") >= 1 })
-		if !forced {
-			c.Count("leave-join:window-not-forced", 1)
-		} else {
-			c.Count("leave-join:window-forced", 1)
-		}
-	}
-
 	b := &rig.Peer{Ski: fmt.Sprintf("%s-ski%d", c.Tag(), 1), Addr: "dev1", Tap: &rig.Tap{}, W: w, Ctr: 200000}
 	if sameSki {
 		b.Ski, b.Addr = a.Ski, a.Addr
 	}
-	setupCall := rig.Seq()
-	ok, pan := rig.Guard(30*time.Second, func() {
-		w.Local.SetupRemoteDevice(b.Ski, b.Tap)
-		b.RD = w.Local.RemoteDeviceForSki(b.Ski)
-	})
-	setupRet := rig.Seq()
-	if pan != "" {
-		c.Violate("leave-join/setup-panics", "%s", pan)
-		return
-	}
-	if !ok {
+	if joinParked {
+		// B's setup is parked after its registration; A's removal runs to completion meanwhile
+		setupDone := make(chan string, 1)
+		setupCall = rig.Seq()
+		go func() {
+			h.Role("join")
+			pan := eGuard(c, "SetupRemoteDevice", func() { w.Local.SetupRemoteDevice(b.Ski, b.Tap) })
+			setupRet = rig.Seq()
+			setupDone <- pan
+		}()
+		forced = rig.WaitFor(10*time.Second, func() bool { return h.GateWaiting(gatePoint) >= 1 })
+		if forced {
+			c.Count("leave-join:setup-window-forced", 1)
+		} else {
+			c.Count("leave-join:setup-window-not-forced", 1)
+		}
+		okL, panL := rig.Guard(30*time.Second, func() { w.Local.RemoveRemoteDeviceConnection(a.Ski) })
+		leaveRet.Store(rig.Seq())
 		if release != nil {
 			release()
 		}
-		c.Inconclusive("SetupRemoteDevice did not return within 30s while a removal was parked after its map update; parking for the hang monitor")
-		for {
-			time.Sleep(time.Hour)
-		}
-	}
-	if !sameSki {
-		w.Peers = append(w.Peers, b)
-	} else {
-		w.Peers[0] = b
-	}
-	if release != nil {
-		release()
-	}
-	select {
-	case pan := <-leaveDone:
-		if pan != "" {
-			c.Violate("leave-join/disconnect-panics", "%s", pan)
+		if panL != "" {
+			c.Violate("leave-join/disconnect-panics", "%s", panL)
 			return
 		}
-	case <-time.After(40 * time.Second):
-		c.Inconclusive("RemoveRemoteDeviceConnection did not return within 40s; parking for the hang monitor")
-		for {
-			time.Sleep(time.Hour)
+		if !okL {
+			c.Inconclusive("RemoveRemoteDeviceConnection did not return within 30s while a setup was parked after its registration; parking for the hang monitor")
+			for {
+				time.Sleep(time.Hour)
+			}
+		}
+		select {
+		case pan := <-setupDone:
+			if pan != "" {
+				c.Violate("leave-join/setup-panics", "%s", pan)
+				return
+			}
+		case <-time.After(40 * time.Second):
+			c.Inconclusive("SetupRemoteDevice did not return within 40s; parking for the hang monitor")
+			for {
+				time.Sleep(time.Hour)
+			}
+		}
+		b.RD = w.Local.RemoteDeviceForSki(b.Ski)
+		w.Peers = append(w.Peers, b)
+	} else {
+		leaveDone := make(chan string, 1)
+		go func() {
+			h.Role("leave")
+			leaveDone <- eGuard(c, "RemoveRemoteDeviceConnection", func() { w.Local.RemoveRemoteDeviceConnection(a.Ski) })
+			leaveRet.Store(rig.Seq())
+		}()
+		if gated {
+			forced = rig.WaitFor(10*time.Second, func() bool { return h.GateWaiting(gatePoint) >= 1 })
+			if !forced {
+				c.Count("leave-join:window-not-forced", 1)
+			} else {
+				c.Count("leave-join:window-forced", 1)
+			}
+		}
+
+		setupCall = rig.Seq()
+		ok, pan := rig.Guard(30*time.Second, func() {
+			w.Local.SetupRemoteDevice(b.Ski, b.Tap)
+			b.RD = w.Local.RemoteDeviceForSki(b.Ski)
+		})
+		setupRet = rig.Seq()
+		if pan != "" {
+			c.Violate("leave-join/setup-panics", "%s", pan)
+			return
+		}
+		if !ok {
+			if release != nil {
+				release()
+			}
+			c.Inconclusive("SetupRemoteDevice did not return within 30s while a removal was parked after its map update; parking for the hang monitor")
+			for {
+				time.Sleep(time.Hour)
+			}
+		}
+		if !sameSki {
+			w.Peers = append(w.Peers, b)
+		} else {
+			w.Peers[0] = b
+		}
+		if release != nil {
+			release()
+		}
+		select {
+		case pan := <-leaveDone:
+			if pan != "" {
+				c.Violate("leave-join/disconnect-panics", "%s", pan)
+				return
+			}
+		case <-time.After(40 * time.Second):
+			c.Inconclusive("RemoveRemoteDeviceConnection did not return within 40s; parking for the hang monitor")
+			for {
+				time.Sleep(time.Hour)
+			}
 		}
 	}
 	overlapped := leaveRet.Load() > setupCall // the removal had not returned when the setup was called
